@@ -118,12 +118,13 @@ def fromStr (read : Str → Option Doc) (s : Str) : Except Err Doc :=
 def fromStrRelaxed (read : Str → Doc) (s : Str) : Except Err Doc :=
   if !gate s then .error .notMachineReadable else .ok (read s)
 
-/-- `iter_files` lossless.rs:68-73 (every paragraph, the first one included) -/
-def iterFiles (c : Doc) : List Para := c.filter (·.containsKey kFiles)
+/-- `iter_files` lossless.rs:68-74 (since b19e977: `paragraphs().skip(1)`, the header paragraph is
+    set aside whatever fields it has) -/
+def iterFiles (c : Doc) : List Para := (c.drop 1).filter (·.containsKey kFiles)
 
-/-- `iter_licenses` lossless.rs:76-81 -/
+/-- `iter_licenses` lossless.rs:77-83 (since b19e977: `paragraphs().skip(1)`) -/
 def iterLicenses (c : Doc) : List Para :=
-  c.filter fun x => !x.containsKey kFiles && x.containsKey kLicense
+  (c.drop 1).filter fun x => !x.containsKey kFiles && x.containsKey kLicense
 
 /-- `FilesParagraph::files` (lossless.rs:298-305): `get("Files").unwrap().split_whitespace()` -/
 def files (fp : Para) : Outcome (List Str) :=
@@ -340,12 +341,15 @@ def globB (g path : Str) : Bool := matchGlob g path == .ok true
 
 def paraMatchesB (fp : Para) (path : Str) : Bool := (patterns fp).any (globB · path)
 
-/-- the Files paragraphs, in file order -/
-def filesParas (c : Doc) : List Para := c.filter (·.containsKey kFiles)
+/-- the Files paragraphs, in file order: paragraphs after the header (the first paragraph of a
+    machine-readable file is its header, DEP-5) that have a Files field -/
+def filesParas (c : Doc) : List Para := (c.drop 1).filter (·.containsKey kFiles)
 
-/-- the stand-alone licence paragraphs, in file order -/
+/-- the stand-alone licence paragraphs, in file order: paragraphs after the header with a License
+    and without a Files field (a License field in the header is the licence of the package as a
+    whole, not a stand-alone licence paragraph) -/
 def standalone (c : Doc) : List Para :=
-  c.filter fun x => !x.containsKey kFiles && x.containsKey kLicense
+  (c.drop 1).filter fun x => !x.containsKey kFiles && x.containsKey kLicense
 
 /-- "the last Files paragraph, in file order, one of whose patterns matches" -/
 def findFiles (c : Doc) (path : Str) : Option Para :=
